@@ -8,7 +8,7 @@ WT = os.environ.get("WT", "/tmp/wt_mut")
 ALL = [f"C{i:02d}" for i in range(1, 20)]
 
 def sh(*a, **k):
-    return subprocess.run(a, capture_output=True, text=True, **k)
+    return subprocess.run(a, capture_output=True, text=True, errors='replace', **k)
 
 def reset():
     sh("git", "-C", WT, "checkout", "--", ".")
